@@ -40,23 +40,24 @@ type step struct {
 }
 
 type scenario struct {
-	ID     string        `json:"id"`
-	Kind   string        `json:"kind"` // session | tickets | wrong | tamper
-	SPad   int           `json:"spad"`
-	Noise  bool          `json:"noise"`  // the server sends a ticket and a PRNG seed right behind its reply, and control packets between writes
-	Script stream.Script `json:"script"`
-	Steps  []step        `json:"steps"`
-	What   string        `json:"what"` // wrong: secret | replybit
-	Bit    int           `json:"bit"`
-	Cut    int           `json:"cut"`
-	Moves  []move        `json:"moves"`
-	Intact int           `json:"intact"`
-	Sizes  []int         `json:"sizes"`
-	Pads   []int         `json:"pads"`
-	NSamp  int           `json:"nsample"`
-	Bits   string        `json:"bits"`
-	Chunk  string        `json:"chunk"`
-	Seed   int64         `json:"seed"`
+	ID      string        `json:"id"`
+	Kind    string        `json:"kind"` // session | tickets | wrong | tamper
+	SPad    int           `json:"spad"`
+	ZSecret bool          `json:"zsecret"` // the reference server picks a DH key whose shared secret has a leading zero byte
+	Noise   bool          `json:"noise"`   // the server sends a ticket and a PRNG seed right behind its reply, and control packets between writes
+	Script  stream.Script `json:"script"`
+	Steps   []step        `json:"steps"`
+	What    string        `json:"what"` // wrong: secret | replybit
+	Bit     int           `json:"bit"`
+	Cut     int           `json:"cut"`
+	Moves   []move        `json:"moves"`
+	Intact  int           `json:"intact"`
+	Sizes   []int         `json:"sizes"`
+	Pads    []int         `json:"pads"`
+	NSamp   int           `json:"nsample"`
+	Bits    string        `json:"bits"`
+	Chunk   string        `json:"chunk"`
+	Seed    int64         `json:"seed"`
 }
 
 var (
@@ -185,6 +186,7 @@ func runSession(s *scenario) {
 	defer os.RemoveAll(dir)
 	cf := newFactory(dir)
 	srv := refss.NewServer(secret, rand.Reader)
+	srv.SecretLeadingZero = s.ZSecret
 	rng := mrand.New(mrand.NewSource(s.Seed))
 	mkC := func(raw net.Conn) (net.Conn, error) { return dial(cf, raw, password(secret)) }
 	mkS := func(raw net.Conn) (net.Conn, error) {
